@@ -48,6 +48,7 @@ EXTENDS Integers, Sequences, FiniteSets, TLC, Json
 
 CONSTANTS Variant,   \* "ok" | "enable_late" | "nonatomic_select" | "no_loop"
                      \*      | "wait_last_only" | "leak_writer" | "leak_reader"
+                     \*      | "unblock_no_sigchld"
           Scripts,   \* set of script ids explored (see Script)
           MaxP       \* bound on the number of processes ever created
 
@@ -57,6 +58,7 @@ NV    == 2                      \* shell variables p1, p2 holding values of $!
 NoSt  == -9                     \* "status not known"
 NZ    == -1                     \* some non-zero status (EPIPE / SIGPIPE)
 ANY   == -2                     \* zero or non-zero: outcome of a race in the script
+KS    == -3                     \* terminated by a signal: reported as a status > 128
 
 -----------------------------------------------------------------------------
 (* Script syntax                                                           *)
@@ -67,6 +69,8 @@ Rd         == [k |-> "rd"]                          \* sink   (reads stdin to EO
 Wr(safe)   == [k |-> "wr", safe |-> safe]           \* echo x (safe: its reader reads to EOF)
 Em(dr)     == [k |-> "em", dr |-> dr]               \* emit 3000: writes more than a pipe holds
                                                     \* (dr: its reader drains the pipe)
+Blk        == [k |-> "blk"]                         \* sink </tmp/fifo : blocks until killed
+Kill(v)    == [k |-> "kill", v |-> v]               \* kill -s TERM $pv
 Sub(b)     == [k |-> "sub", b |-> b]                \* ( b )
 Cs(b)      == [k |-> "cs", b |-> b]                 \* x=$( b )
 Bg(b, v)   == [k |-> "bg", b |-> b, v |-> v]        \* { b; } &  [pv=$!]
@@ -136,9 +140,19 @@ Script(id) ==
           [] id.f = "big3c"  -> <<Pipe(<< <<Em(TRUE)>>, <<Rd>>, S1(a[1]) >>), Pr(1)>>
           [] id.f = "big3d"  -> <<Pipe(<< <<Em(TRUE)>>, <<St(a[1]), Rd>>, <<Rd>> >>), Pr(1)>>
           [] id.f = "big4"   -> <<Pipe(<< <<Em(FALSE)>>, S1(a[1]), S1(a[2]), <<Rd>> >>), Pr(1)>>
+          \* signals: an asynchronous child that blocks until it is killed; with
+          \* a[1] = 1 the shell has a command trap on TERM (TERM is then blocked
+          \* outside select, the child inherits the mask and unblocks in its first
+          \* step: a TERM sent before that stays pending and kills it then)
+          [] id.f = "tk1"    -> <<Bg(<<Blk>>, 1), Kill(1), Wt(<<1>>), Pr(1)>>
+          [] id.f = "tk2"    -> <<Bg(<<Blk>>, 1), Sub(S1(a[2])), Kill(1), Pr(1), Wt(<<1>>), Pr(2)>>
+          [] id.f = "tk3"    -> <<Bg(<<Blk>>, 1), Bg(S1(a[2]), 2), Kill(1), Sub(S1(0)), Pr(1), Wt(<<2, 1>>), Pr(2),
+                                  Wt(<<1>>), Pr(3)>>
+          [] id.f = "tk4"    -> <<Sub(<<Bg(<<Blk>>, 1), Sub(S1(0)), Kill(1), Wt(<<>>), Pr(1)>>), Pr(2)>>
           \* generated: GenAtoms[a[1]]; probe 1; GenAtoms[a[2]]; probe 2; ...
           [] id.f = "gen"    -> GenBody(a, 1)
-  IN [id |-> id, pf |-> id.pf, body |-> body]
+  IN [id |-> id, pf |-> id.pf, body |-> body,
+      tr |-> id.f \in {"tk1", "tk2", "tk3", "tk4"} /\ id.a[1] = 1]
 
 Ids(f, as, pfs) == {[f |-> f, a |-> a, pf |-> pf] : a \in as, pf \in pfs}
 B2 == {FALSE, TRUE}
@@ -170,7 +184,10 @@ CatPipesEof ==
 CatBigWriter ==
   Ids("big2", {<<0>>}, B2) \cup Ids("big3a", {<<0>>, <<5>>}, B2) \cup Ids("big3b", {<<0, 0>>, <<5, 4>>}, B2)
   \cup Ids("big3c", {<<4>>}, B2) \cup Ids("big3d", {<<3>>}, B2)
-CatAll == CatPipes \cup CatSimple \cup CatAsync \cup CatNested \cup CatPipesEof \cup CatBigWriter
+CatSignals ==
+  Ids("tk1", {<<0>>, <<1>>}, {FALSE}) \cup Ids("tk2", {<<0, 4>>, <<1, 4>>}, {FALSE})
+  \cup Ids("tk3", {<<0, 3>>, <<1, 3>>}, {FALSE}) \cup Ids("tk4", {<<0>>, <<1>>}, {FALSE})
+CatAll == CatSignals \cup CatPipes \cup CatSimple \cup CatAsync \cup CatNested \cup CatPipesEof \cup CatBigWriter
 CatBig ==
   Ids("pipe4", {<<3, 0, 4, 0>>}, B2) \cup Ids("bg3", {<<3, 4, 5>>}, {FALSE})
   \cup Ids("subp3", {<<3, 4, 0>>}, B2) \cup Ids("csp3", {<<0, 4, 0>>}, B2)
@@ -190,6 +207,7 @@ CatNegWait == Ids("sub", {<<5>>}, {FALSE}) \cup Ids("bgfg", {<<3, 4>>}, {FALSE})
 CatNegPipe == Ids("pipe2", {<<3, 4>>}, {FALSE})
 CatNegLeak == Ids("sink1", {<<3>>}, {FALSE})
 CatNegLeakR == Ids("big3a", {<<0>>}, {FALSE})
+CatNegSig == Ids("tk1", {<<1>>}, {FALSE})
 
 -----------------------------------------------------------------------------
 (* Concrete syntax (what the harness feeds to the real shell)              *)
@@ -208,6 +226,8 @@ TxtCmd(c) ==
     [] c.k = "rd"   -> "sink"
     [] c.k = "wr"   -> "echo x"
     [] c.k = "em"   -> "emit 3000"
+    [] c.k = "blk"  -> "sink </tmp/fifo"
+    [] c.k = "kill" -> "kill -s TERM $p" \o ToString(c.v)
     [] c.k = "sub"  -> "( " \o TxtBody(c.b) \o " )"
     [] c.k = "cs"   -> "x=$( " \o TxtBody(c.b) \o " )"
     [] c.k = "bg"   -> Brace(c.b) \o " &" \o (IF c.v = 0 THEN "" ELSE " p" \o ToString(c.v) \o "=$!")
@@ -216,7 +236,7 @@ TxtCmd(c) ==
 TxtBody(b) ==
   IF Len(b) = 1 THEN TxtCmd(b[1])
   ELSE TxtCmd(Head(b)) \o (IF Head(b).k = "bg" /\ Head(b).v = 0 THEN " " ELSE "; ") \o TxtBody(Tail(b))
-Text(sc) == (IF sc.pf THEN "set -o pipefail; " ELSE "")
+Text(sc) == (IF sc.pf THEN "set -o pipefail; " ELSE "") \o (IF sc.tr THEN "trap 'probe 9' TERM; " ELSE "")
             \o (IF sc.id.f = "gen" THEN "p1=999; p2=999; " ELSE "") \o TxtBody(sc.body)
 
 -----------------------------------------------------------------------------
@@ -258,6 +278,8 @@ DenCmd(c, path, e) ==
        [] c.k = "rd" -> [none EXCEPT !.e.q = 0]
        [] c.k = "wr" -> [none EXCEPT !.e.q = IF c.safe THEN 0 ELSE ANY]
        [] c.k = "em" -> [none EXCEPT !.e.q = IF c.dr THEN 0 ELSE NZ]
+       [] c.k = "blk" -> [none EXCEPT !.e.q = KS]      \* never returns: the process is killed (scripts kill it)
+       [] c.k = "kill" -> [none EXCEPT !.e.q = 0]
        [] c.k \in {"sub", "cs"} ->
             LET r == DenChild(c.b, Append(path, e.nf + 1), e)
             IN [e |-> [e EXCEPT !.q = r.xs, !.nf = @ + 1], pr |-> <<>>, procs |-> r.procs, gl |-> r.gl]
@@ -316,7 +338,7 @@ DetBody(b) ==
 Deterministic(sc) == DetBody(sc.body)
 
 \* does an observed / operational status o agree with the denoted status d?
-Match(d, o) == d = ANY \/ (d = NZ /\ o # 0) \/ d = o
+Match(d, o) == d = ANY \/ d = o \/ (d = NZ /\ o # 0 /\ o # KS) \/ (d = KS /\ o > 128)
 
 -----------------------------------------------------------------------------
 (* Operational model: state record                                         *)
@@ -324,6 +346,9 @@ Idle == [n |-> "cmd", m |-> "", k |-> 0, c |-> 0, r |-> 0, kids |-> <<>>, pp |->
 
 InitS(sc) ==
   [ sid   |-> sc.id, pf |-> sc.pf, det |-> Deterministic(sc),
+    tr    |-> [p \in Pids |-> p = Base /\ sc.tr],         \* command trap on TERM: TERM blocked outside select
+    tb    |-> [p \in Pids |-> FALSE],                     \* subshell not yet entered: TERM still blocked (inherited)
+    tp    |-> [p \in Pids |-> FALSE],                     \* TERM pending
     n     |-> 1,                                          \* processes created so far
     np    |-> 0,                                          \* pipes created so far
     st    |-> [p \in Pids |-> IF p = Base THEN "Run" ELSE "None"],
@@ -390,6 +415,7 @@ Fork(T, p, bdy, knd, i, o, r, w) ==
                  !.pc[c] = 1, !.ph[c] = Idle, !.q[c] = T.q[p], !.bang[c] = T.bang[p],
                  !.vars[c] = T.vars[p], !.jobs[c] = <<>>, !.hd[c] = T.hd[p], !.pend[c] = FALSE,
                  !.inp[c] = i, !.out[c] = o, !.xr[c] = r, !.xw[c] = w,
+                 !.tb[c] = T.tr[p] \/ T.tb[p], !.tp[c] = FALSE,
                  !.path[c] = Append(T.path[p], T.nf[p] + 1), !.nf[p] = @ + 1]
 
 Adv(T, p) == [T EXCEPT !.pc[p] = @ + 1, !.ph[p] = Idle]
@@ -414,18 +440,34 @@ DoExit(T, p) ==
                   !.xr[p] = {}, !.xw[p] = {}, !.ph[p] = Idle, !.pend[p] = FALSE],
         T.par[p])
 
+\* t is terminated by a signal: descriptors closed, SIGCHLD at the parent
+Die(T, t, sigchld) ==
+  LET U == [T EXCEPT !.st[t] = "Zombie", !.xs[t] = KS, !.inp[t] = 0, !.out[t] = 0, !.xr[t] = {}, !.xw[t] = {},
+                     !.ph[t] = Idle, !.pend[t] = FALSE, !.tb[t] = FALSE, !.tp[t] = FALSE]
+  IN IF sigchld THEN Raise(U, T.par[t]) ELSE U
+\* target of the kill command p is about to execute (0: none)
+KillTarget(T, p) == T.vars[p][Cmd(T, p).v]
+KillsNow(T, p) ==
+  LET t == KillTarget(T, p) IN t \in Pids /\ T.st[t] = "Run" /\ ~T.tb[t]
+\* status p terminates with in its next step, if that step is "exit"
+NextXs(T, p) == IF T.tb[p] THEN KS ELSE T.q[p]
+
 JobsWithout(j, xs) == [x \in DOMAIN j \ xs |-> j[x]]
 
 \* What p's next step is: "blocked", or the kind of visible effect it has
 \* ("probe", "fork", "reap" of ph.c, "reapany", "exit"), or "silent".
 Kind(T, p) ==
   LET h == T.ph[p] IN
+  IF T.tb[p] THEN (IF T.tp[p] THEN "exit" ELSE "silent")   \* entering the subshell unblocks TERM
+  ELSE
   CASE h.n = "cmd" ->
          IF AtEnd(T, p) THEN "exit"
          ELSE LET c == Cmd(T, p) IN
               (CASE c.k = "pr" -> "probe"
                  [] c.k = "rd" -> IF Eof(T, T.inp[p]) THEN "silent" ELSE "blocked"
                  [] c.k = "em" -> IF EmReady(T, p) THEN "silent" ELSE "blocked"
+                 [] c.k = "blk" -> "blocked"
+                 [] c.k = "kill" -> IF KillsNow(T, p) THEN "kill" ELSE "silent"
                  [] c.k \in {"sub", "cs", "bg"} -> "fork"
                  [] OTHER -> "silent")
     [] h.n = "pf" -> "fork"
@@ -440,11 +482,15 @@ Kind(T, p) ==
 \* Fine-grained label of the step (for coverage and diagnostics)
 Tag(T, p) ==
   LET h == T.ph[p] IN
-  IF h.n = "cmd" THEN (IF AtEnd(T, p) THEN "exit" ELSE Cmd(T, p).k) ELSE h.n
+  IF T.tb[p] THEN "unblock"
+  ELSE IF h.n = "cmd" THEN (IF AtEnd(T, p) THEN "exit" ELSE Cmd(T, p).k) ELSE h.n
 
 \* p's next step; ch = the child chosen by a "reapany" step (else ignored)
 Apply(T, p, ch) ==
   LET h == T.ph[p] IN
+  IF T.tb[p]
+  THEN (IF T.tp[p] THEN Die(T, p, Variant # "unblock_no_sigchld") ELSE [T EXCEPT !.tb[p] = FALSE])
+  ELSE
   CASE h.n = "cmd" ->
     IF AtEnd(T, p) THEN DoExit(T, p)
     ELSE LET c == Cmd(T, p) IN
@@ -456,6 +502,11 @@ Apply(T, p, ch) ==
          [] c.k = "rd" -> Adv([T EXCEPT !.q[p] = 0], p)
          [] c.k = "wr" -> Adv([T EXCEPT !.q[p] = IF T.out[p] = 0 \/ HasReader(T, T.out[p]) THEN 0 ELSE NZ], p)
          [] c.k = "em" -> Adv([T EXCEPT !.q[p] = IF T.out[p] = 0 \/ HasReader(T, T.out[p]) THEN 0 ELSE NZ], p)
+         [] c.k = "kill" ->
+              LET t == KillTarget(T, p) IN
+              IF KillsNow(T, p) THEN Adv([Die(T, t, TRUE) EXCEPT !.q[p] = 0], p)
+              ELSE IF t \in Pids /\ T.st[t] = "Run" THEN Adv([T EXCEPT !.tp[t] = TRUE, !.q[p] = 0], p)
+              ELSE Adv([T EXCEPT !.q[p] = 0], p)
          [] c.k = "sub" ->
               LET U == Fork(T, p, c.b, "sub", T.inp[p], T.out[p], T.xr[p], T.xw[p])
               IN [U EXCEPT !.ph[p] = [Idle EXCEPT !.n = "en", !.m = "fg", !.c = NewPid(T)]]
@@ -565,6 +616,8 @@ AProbe(p)     == Is(p, {"pr"}) /\ Step(p)
 ARead(p)      == Is(p, {"rd"}) /\ Step(p)
 AWrite(p)     == Is(p, {"wr"}) /\ Step(p)
 ABigWrite(p)  == Is(p, {"em"}) /\ Step(p)
+AKill(p)      == Is(p, {"kill"}) /\ Step(p)
+AUnblock(p)   == Is(p, {"unblock"}) /\ Step(p)
 AForkSub(p)   == Is(p, {"sub"}) /\ Step(p)
 AForkCs(p)    == Is(p, {"cs"}) /\ Step(p)
 AForkBg(p)    == Is(p, {"bg"}) /\ Step(p)
@@ -583,7 +636,7 @@ Done          == Terminated(S) /\ UNCHANGED S
 
 Next ==
   \/ \E p \in Pids :
-       \/ ASimple(p) \/ AProbe(p) \/ ARead(p) \/ AWrite(p) \/ ABigWrite(p) \/ AForkSub(p) \/ AForkCs(p) \/ AForkBg(p)
+       \/ ASimple(p) \/ AProbe(p) \/ ARead(p) \/ AWrite(p) \/ ABigWrite(p) \/ AKill(p) \/ AUnblock(p) \/ AForkSub(p) \/ AForkCs(p) \/ AForkBg(p)
        \/ AForkStage(p) \/ AReadEof(p) \/ AEnable(p) \/ APollFg(p) \/ AReapFg(p) \/ APollAny(p)
        \/ AReapAny(p) \/ AWake(p) \/ AWaitChk(p) \/ AExit(p)
   \/ \E p, c \in Pids : ACollect(p, c)
